@@ -40,7 +40,18 @@ def check_op(inp):
         else:
             X.append(nm(x))
     xt = inp.get('xtype', 'list')
-    Xarg = set(X) if xt == 'set' else (tuple(X) if xt == 'tuple' else list(X))
+    if xt == 'set':
+        Xarg = set(X)
+    elif xt == 'tuple':
+        Xarg = tuple(X)
+    elif xt == 'frozenset':
+        Xarg = frozenset(X)
+    elif xt == 'keys':
+        Xarg = dict((x, None) for x in X).keys()
+    elif xt == 'dupes':
+        Xarg = list(X) + list(reversed(X))
+    else:
+        Xarg = list(X)
     expE = set((nm(a), nm(b)) for a, b in edges)
     try:
         if op == 'reach':
@@ -48,6 +59,9 @@ def check_op(inp):
             exp = set(nm(i) for i in G.reachable_from(n, edges, [x for x in Xabs]))
             if not isinstance(res, set) or res != exp:
                 return _fail(inp, 'reachable set differs', _txt(exp), _txt(res))
+            res2 = g.get_reachable_set_from(Xarg)          # asking again gives the same answer
+            if res2 != exp:
+                return _fail(inp, 'second call on the same graph differs', _txt(exp), _txt(res2))
         elif op == 'reverse':
             r = g.get_reversed_graph()
             if set(r.nodes()) != set(names):
@@ -127,7 +141,7 @@ def enum_shard(st, shard, nshards, payload):
             cases = [dict(base, op='reverse'), dict(base, op='clone')]
             for X in G.all_subsets(range(n)):
                 X = list(X)
-                xt = ('list', 'set', 'tuple')[(idx + len(X)) % 3]
+                xt = ('list', 'set', 'tuple', 'frozenset', 'keys', 'dupes')[(idx + len(X)) % 6]
                 cases.append(dict(base, op='reach', X=X, xtype=xt))
                 cases.append(dict(base, op='subgraph', X=X, xtype=xt))
                 if len(X) % 2 == idx % 2:
@@ -192,7 +206,7 @@ def random_shard(st, shard, nshards, payload):
         return {'n': n, 'edges': edges, 'how': draw(hs.integers(0, 5)),
                 'naming': draw(hs.sampled_from(sorted(G.NAMINGS))),
                 'via': draw(hs.sampled_from(['ctor', 'incremental'])), 'op': op, 'X': X,
-                'xtype': draw(hs.sampled_from(['list', 'set', 'tuple']))}
+                'xtype': draw(hs.sampled_from(['list', 'set', 'tuple', 'frozenset', 'keys', 'dupes']))}
 
 
     def body(inp):
